@@ -83,7 +83,7 @@ type c12Rewrite struct {
 	Seed  uint64   `json:"seed"`
 }
 
-var c12Kinds = []string{"case", "ows", "empty", "quoted-delta", "token-fields", "split-lines", "order", "extensions"}
+var c12Kinds = []string{"case", "ows", "empty", "quoted-delta", "token-fields", "split-lines", "order", "extensions", "quoted-pair"}
 
 func rewriteCC(dirs []string, rw c12Rewrite) []string {
 	if len(dirs) == 0 {
@@ -129,6 +129,20 @@ func rewriteCC(dirs []string, rw c12Rewrite) []string {
 			}
 			if has("token-fields") && strings.HasPrefix(arg, `"`) && !strings.ContainsAny(arg, ", ") {
 				arg = strings.Trim(arg, `"`)
+			}
+			if has("quoted-pair") {
+				// quoted-string with quoted-pairs (also as the last character)
+				inner := strings.Trim(arg, `"`)
+				if inner != "" && !strings.ContainsAny(inner, `\"`) {
+					var qb strings.Builder
+					for k := 0; k < len(inner); k++ {
+						if k == len(inner)-1 || r.IntN(3) == 0 {
+							qb.WriteByte('\\')
+						}
+						qb.WriteByte(inner[k])
+					}
+					arg = `"` + qb.String() + `"`
+				}
 			}
 			ds[i] = name + "=" + arg
 		} else {
